@@ -151,6 +151,12 @@ def unit_scheme(ctx, schemes, n_gen):
                     return
                 run_seq(ctx, s, mod, dem, bits, cell, via, "generated_1d" if B == 0 else "generated_batch")
             draw_cases(strat, n_gen, ctx.seed * 977 + hash(str(sorted(s.items()))) % 1000, f)
+            # long sequences (implementations that work in chunks must not lose the tail): lengths that are no multiple of a power of two
+            if not via:
+                rngl = np.random.RandomState(ctx.seed + 77)
+                for shape, lay in (((70001 * b,), "long_1d"), ((7, 5003 * b), "long_batch"), ((3, 1031 * b), "long_batch")):
+                    run_seq(ctx, s, mod, dem, (rngl.rand(*shape) < 0.5).astype(np.float32), cell, via, lay)
+                    ctx.cls("long_sequences")
         if len(ctx.samples) < 3:
             ctx.sample({"scheme": s, "bits_per_symbol": b})
 
